@@ -142,6 +142,27 @@ for trial in range(%d):
                 w = Caching3D(g3, (lo, hi, lo, hi, lo, hi), (0.4, 0.4, 0.4), function_boundaries=fb)(*p)
                 if abs(w - v) > 1e-7 * (1 + abs(v)): bad.append(("3d-history-function_boundaries", trial, fb))
                 if abs(v - g3(*p)) > 1e-6 * (1 + abs(v)): bad.append(("3d-linear-function_boundaries", trial, fb))
+# outside the caching area - including non-finite coordinates: ValueError, or the wrapped function itself when no_boundary_error is set
+nan, inf = float("nan"), float("inf")
+calls = []
+def w1(x): calls.append((x,)); return 1234.5
+def w2(x, y): calls.append((x, y)); return 1234.5
+def w3(x, y, z): calls.append((x, y, z)); return 1234.5
+for dim, cls, fn, area, res0 in ((1, Caching1D, w1, (-1.0, 2.0), 0.25), (2, Caching2D, w2, (-1.0, 2.0, -1.0, 2.0), (0.25, 0.25)),
+                                 (3, Caching3D, w3, (-1.0, 2.0, -1.0, 2.0, -1.0, 2.0), (0.5, 0.5, 0.5))):
+    for bad_value in (nan, inf, -inf, 2.5, -1.5):
+        for axis in range(dim):
+            pt = [0.3] * dim; pt[axis] = bad_value
+            n += 1
+            try:
+                cls(fn, area, res0)(*pt)
+                bad.append(("%%dd-outside-area-did-not-raise" %% dim, repr(pt)))
+            except ValueError:
+                pass
+            del calls[:]
+            v = cls(fn, area, res0, no_boundary_error=True)(*pt)
+            if v != 1234.5 or not calls or repr(calls[-1]) != repr(tuple(pt)):
+                bad.append(("%%dd-no_boundary_error-wrapped-function-not-used" %% dim, repr(pt), repr(v)))
 print(json.dumps({"cases": n, "bad": bad[:10]}))
 ''' % (ctx['seed'], n)
     out = run_native(ctx, code, timeout=600)
